@@ -196,6 +196,7 @@ def run(ctx):
     run_dependants(ctx)
     helper_mock_names_probe(ctx)
     shared_object_probe(ctx)
+    run_argument_probe(ctx)
 
 
 def helper_mock_names_probe(ctx):
@@ -308,6 +309,39 @@ def run_class_names(ctx):
 
 def _run_int(self) -> int:
     return 1
+
+
+def run_argument_probe(ctx):
+    """a run argument is a name like any other: when two inputs of a task share the short name (`train:features`, `test:features`) an argument
+    called `features` identifies neither — the request fails, it does not receive whichever input was declared last"""
+    from taskchain import Task, Config
+
+    def feat(group, val):
+        class F(Task):
+            class Meta:
+                name = 'features'
+                task_group = group
+
+            def run(self) -> int:
+                return val
+        return F
+    Tr, Te = feat('train', 1), feat('test', 2)
+    for order in ([Tr, Te], [Te, Tr]):
+        class Uses(Task):
+            class Meta:
+                name = 'uses'
+                input_tasks = list(order)
+
+            def run(self, features) -> int:
+                return features
+        case = {'probe': 'run argument named like two inputs', 'declared': [c.slugname for c in order]}
+        ctx.case(case); ctx.count('run-argument-probe')
+        try:
+            ch = Config(ctx.tmpdir() / 'runarg', name='c', data={'tasks': [Tr, Te, Uses]}).chain()
+            v = ch['uses'].value
+            ctx.fail('an ambiguous short name was resolved (no error)', case, {'how': 'run argument', 'received': v})
+        except (KeyError, ValueError):
+            pass
 
 
 def shared_object_probe(ctx):
